@@ -17,6 +17,12 @@
        nearest node holds 1;
      * order=0, mode='constant': input[floor(y+1/2), floor(x+1/2)] for 0 <= y <= n-1, 0 <= x <= m-1
        and 0 (cval) outside.
+   Plane.rescale: deep copy; amplitude (only if ndim > 1) = util.rescale(order 3, 'nearest')/scale; opd (only if
+   ndim > 1) likewise without the factor; mask (2-d, or each slice of a 3-d cube) = util.rescale(order 0, 'constant'),
+   re-binarised, cast to int; _plane_slice (IndexError on an empty mask/segment); pixelscale/scale per axis.
+   Plane.resample: ValueError without pixel scale, NotImplementedError if non-uniform, else rescale(ps/new).
+   The model follows the code as it is, including two findings: an integer/bool array is refused with ValueError
+   (np.finfo), and a scalar amplitude is not divided by the scale.
    A sample of the model is therefore [Known v] (the value is pinned), [NonZero] (only v <> 0 is
    pinned: a nearest-neighbour sample times a post-mask weight in [1/4, 1]) or [Unknown]. *)
 From Coq Require Export QArith Qcanon Qround.
